@@ -39,6 +39,7 @@ type Case struct {
 	Origin string   `json:"origin"` // built | loaded | merged | cloned | sealed | overlay
 	D1     any      `json:"d1"`
 	D2     any      `json:"d2,omitempty"`
+	More   []any    `json:"more,omitempty"` // origin layers: the layers after the second one
 	Seqs   [][]Call `json:"seqs"`
 	Repeat int      `json:"repeat,omitempty"`
 }
@@ -155,9 +156,27 @@ func container(w any) dom.ContainerBuilder {
 	return dom.Builder().Container()
 }
 
-// Build constructs the document the way `origin` says.
-func Build(origin string, d1, d2 any) *Subject {
+// LayerNames: the names of the layers of a `layers` overlay, in insertion order.
+func LayerNames(n int) []string {
+	out := []string{"zbase", "atop"}
+	for i := 3; i <= n; i++ {
+		out = append(out, fmt.Sprintf("l%d", i))
+	}
+	return out[:n]
+}
+
+// Build constructs the document the way `origin` says (more: the layers after the second one of a
+// `layers` overlay).
+func Build(origin string, d1, d2 any, more ...any) *Subject {
 	switch origin {
+	case "layers":
+		// an overlay of 2 + len(more) layers, each added as it is (no Put afterwards)
+		o := dom.NewOverlayDocument()
+		names := LayerNames(2 + len(more))
+		for i, d := range append([]any{d1, d2}, more...) {
+			o.Add(names[i], container(d))
+		}
+		return &Subject{O: o}
 	case "loaded":
 		b, _ := yaml.Marshal(wirePlain(d1))
 		cb, err := dom.Builder().FromReader(bytes.NewReader(b), dom.DefaultYamlDecoder)
@@ -402,6 +421,41 @@ func (s *Subject) execOverlay(c Call) string {
 		return fmt.Sprintf("%v|%s", err != nil, buf.String())
 	}
 	return "not-applicable"
+}
+
+// LayerFingerprints: the Fingerprint of every layer of an overlay document separately (the layer's own
+// container with everything below it), by layer name; nil when x is not the package's overlay type.
+func LayerFingerprints(x any) map[string]string {
+	v := reflect.ValueOf(x)
+	for v.IsValid() && (v.Kind() == reflect.Ptr || v.Kind() == reflect.Interface) {
+		if v.IsNil() {
+			return nil
+		}
+		v = v.Elem()
+	}
+	if !v.IsValid() || v.Kind() != reflect.Struct {
+		return nil
+	}
+	m := v.FieldByName("overlays")
+	if !m.IsValid() || m.Kind() != reflect.Map || m.Type().Key().Kind() != reflect.String {
+		return nil
+	}
+	out := map[string]string{}
+	for it := m.MapRange(); it.Next(); {
+		var sb strings.Builder
+		fp(&sb, it.Value(), map[uintptr]bool{}, 0)
+		out[it.Key().String()] = sb.String()
+	}
+	return out
+}
+
+// LayerTexts: the content of every layer as the overlay's own snapshot view (Layers()) reports it.
+func LayerTexts(o dom.OverlayDocument) map[string]string {
+	out := map[string]string{}
+	for k, l := range o.Layers() {
+		out[k] = NodeText(l)
+	}
+	return out
 }
 
 // Fingerprint is a deep structural dump of the object graph behind x: pointers are followed,
